@@ -1,9 +1,12 @@
 #!/bin/bash
-# try_mutant.sh <ID> <worktree> <patch.diff> [outfile] : apply the patch in the scratch worktree, run the check
-# against it (VERIF_REPO), undo the patch.  Prints "rc=<n> violations=<k>".
-ID="$1"; WT="$2"; P="$3"; OUT="${4:-/var/tmp/runs/mut_${ID}_$(basename $(dirname $P)).out}"
+# try_mutant.sh <ID> <ignored> <patch.diff> [outfile] : make a fresh scratch worktree of /repo's CURRENT HEAD, apply the
+# patch, run the check against it (VERIF_REPO), remove the worktree.  Prints "rc=<n> violations=<k>".
+ID="$1"; P="$3"; OUT="${4:-/var/tmp/runs/mut_${ID}_$(basename $(dirname $P)).out}"
+WT="/tmp/tm_${ID}_$$"
 mkdir -p "$(dirname "$OUT")"
-cd "$WT" && git checkout -q -- . && git apply "$P" || { echo "patch does not apply"; exit 9; }
+git -C /repo worktree add -q "$WT" HEAD || exit 9
+cp /repo/config.h "$WT"/; cp /repo/include/mps/mt.h /repo/include/mps/version.h "$WT"/include/mps/
+( cd "$WT" && git apply "$P" ) || { echo "$ID $(basename $(dirname $P)) patch does not apply to current HEAD"; git -C /repo worktree remove --force "$WT"; exit 9; }
 cd /verif && VERIF_REPO="$WT" ./check "$ID" > "$OUT" 2> "$OUT.err"; rc=$?
-cd "$WT" && git checkout -q -- .
-echo "$ID $(basename $(dirname $P)) rc=$rc violations=$(grep -c '^VIOLATION' "$OUT") known=$(grep -c '^KNOWN-FINDING' "$OUT") :: $(grep '^VIOLATION' "$OUT" | head -2 | tr '\n' ' ')"
+git -C /repo worktree remove --force "$WT"
+echo "$ID $(basename $(dirname $P)) rc=$rc violations=$(grep -c '^VIOLATION' "$OUT") known=$(grep -c '^KNOWN-FINDING' "$OUT") :: $(grep '^VIOLATION' "$OUT" | head -2 | sed 's|.*replays/||' | tr '\n' ' ')"
